@@ -15,8 +15,9 @@ func init() { register("C04", runC04Deep2) }
 // direction of the round trip:
 //   c04 enc  <format> k=v …   -> bytes of the harness encoder
 //   c04 inst <format> k=v …   -> REAL decoder (GCN3 instance) on the encoded bytes (+ random tail), for descriptions
-//   c04 inst3 …                  that are well-formed by construction (CDNA3 instance); "deviates" for the two classes
-//                                on which the decoder departs from the ISA packing (known findings)
+//   c04 inst3 …                  that are well-formed by construction (CDNA3 instance), including the two classes on
+//                                which the decoder used to depart from the ISA packing (s_setreg_imm32_b32, SDWA S0:
+//                                repaired; their ISA oracles C04.isa.* stay)
 //   c04 norm <arch> <hex>     -> canonical form (ignored bits cleared, unused bytes dropped) computed by c04Norm
 //   c04 desc <arch> <hex>     -> the same bytes: the model answers encode(descOf(decode b))
 // Oracles on the real decoder: size = encoded length, tail independence, decode(norm b) = decode(b) (the cleared bits
@@ -82,7 +83,7 @@ func c04Norm(cdna3 bool, inst *insts.Inst, buf []byte) []byte {
 			if hi>>11&3 == 3 {
 				hi &^= 3 << 11
 			}
-			hi &^= 3<<14 | 3<<22
+			hi &^= 3<<14 | 1<<22 | 1<<30
 		}
 	}
 	out := make([]byte, 4, 8)
@@ -91,10 +92,6 @@ func c04Norm(cdna3 bool, inst *insts.Inst, buf []byte) []byte {
 		out = binary.LittleEndian.AppendUint32(out, hi)
 	}
 	return out
-}
-
-func c04IsSdwa30(inst *insts.Inst, buf []byte) bool {
-	return inst.FormatType == insts.VOP2 && c04le(buf[0:4])&0x1ff == 249 && len(buf) >= 8 && c04le(buf[4:8])>>30&1 == 1
 }
 
 func runC04Deep2(r *Run, rng *Rng, replay string) {
@@ -209,6 +206,9 @@ func runC04Deep2(r *Run, rng *Rng, replay string) {
 			wf = !(op == 23 || op == 24 || op == 36 || op == 37)
 			if kind == "sdwa-s0" {
 				f["s0"] = 1
+				if rng.Chance(70) {
+					f["src0"] = uint32(rng.Intn(102))
+				}
 				deviates = wf
 			}
 		case "setreg":
@@ -245,8 +245,8 @@ func runC04Deep2(r *Run, rng *Rng, replay string) {
 			line := c04DeepLine(a.kw, fm, op, f, lit)
 			r.Count("deep2." + a.kw + "." + kind)
 			if deviates {
-				// the model answers "deviates"; the implementation-side oracle states the ISA expectation
-				r.Case(line, "deviates")
+				// the two classes the decoder used to get wrong: the implementation-side oracle states the ISA
+				// expectation on its own, then the case goes through the round trip like every other one
 				r.Checked("deep2-isa")
 				switch kind {
 				case "setreg":
@@ -258,11 +258,13 @@ func runC04Deep2(r *Run, rng *Rng, replay string) {
 						r.Failf("C04.isa.setreg-imm32-size", line, "s_setreg_imm32_b32 is 8 bytes (SIMM32 follows the first dword), decoded size %d (bytes %s): a sequential decode takes the immediate for the next instruction", sz, hexb(buf))
 					}
 				case "sdwa-s0":
-					if dec == nil || dec.Src0 == nil || dec.Src0.Register == nil || !dec.Src0.Register.IsSReg() {
+					// (SRC0 codes above 101 are not SGPRs: with S0 = 1 the decoder - like the model - takes the field as a
+					// plain SGPR index, as it always did for S1; the ISA expectation is stated for real SGPRs)
+					if f["src0"] <= 101 && (dec == nil || dec.Src0 == nil || dec.Src0.Register == nil || !dec.Src0.Register.IsSReg() ||
+						uint32(dec.Src0.Register.RegIndex()) != f["src0"]) {
 						r.Failf("C04.isa.sdwa-s0-bit", line, "SDWA dword with S0 (bit 23) set: SRC0 is the SGPR s%d, decoded as %s (bytes %s)", f["src0"], out, hexb(buf))
 					}
 				}
-				continue
 			}
 			r.Case(line, out)
 			r.Checked("deep2-roundtrip")
@@ -313,7 +315,7 @@ func runC04Deep2(r *Run, rng *Rng, replay string) {
 			}
 			if it.Format.FormatType == insts.VOP2 && c04le(buf)&0x1ff == 249 {
 				hi &^= 1<<13 | 7<<19 | 7<<27 // keep the unsupported SDWA modifiers off (they panic: notimpl)
-				if rng.Chance(80) {
+				if rng.Chance(50) {
 					hi &^= 1 << 30
 				}
 			}
@@ -327,17 +329,14 @@ func runC04Deep2(r *Run, rng *Rng, replay string) {
 			nb := c04Norm(a.c, inst, buf)
 			r.Case(fmt.Sprintf("c04 norm %s %s", a.name, hexb(buf)), hexb(nb))
 			r.Count("norm." + fm)
-			sdwa30 := c04IsSdwa30(inst, buf)
-			if !sdwa30 {
-				r.Case(fmt.Sprintf("c04 desc %s %s", a.name, hexb(buf)), hexb(nb))
-			}
+			r.Case(fmt.Sprintf("c04 desc %s %s", a.name, hexb(buf)), hexb(nb))
 			// the cleared bits are ignored
 			r.Checked("ignored-bits")
 			if out2, _ := decodeCanon(a.dis, nb); out2 != out {
 				r.Failf("C04.ignored."+fm, fmt.Sprintf("c04 dec %s %s", a.name, hexb(buf)), "canonical form %s decodes to %s, the original bytes to %s", hexb(nb), out2, out)
 			}
 			// and no other bit is: flip every bit of the consumed bytes
-			if flipsDone >= flips || sdwa30 {
+			if flipsDone >= flips {
 				continue
 			}
 			flipsDone++
@@ -345,7 +344,7 @@ func runC04Deep2(r *Run, rng *Rng, replay string) {
 				b2 := append([]byte{}, buf...)
 				b2[bit/8] ^= 1 << (bit % 8)
 				out3, inst3 := decodeCanon(a.dis, b2)
-				if inst3 == nil || c04IsSdwa30(inst3, b2) {
+				if inst3 == nil {
 					continue
 				}
 				nb3 := c04Norm(a.c, inst3, b2)
